@@ -145,6 +145,27 @@ var perturbations = []perturb{
 		c := m.LogConfigs.Config[i]
 		c.NotAfterStart, c.NotAfterLimit = nil, timestamppb.New(time.Date(2001, 1, 1, 0, 0, 0, 0, time.UTC))
 	}},
+	// present-but-zero timestamps (seconds 0, nanos 0: the epoch) are values, not absences
+	{"window.start-zero", "harmless", func(w *CfgWorld, m *configpb.LogMultiConfig, i int) {
+		c := m.LogConfigs.Config[i]
+		c.NotAfterStart, c.NotAfterLimit = &timestamppb.Timestamp{}, timestamppb.New(time.Date(2001, 1, 1, 0, 0, 0, 0, time.UTC))
+	}},
+	{"window.limit-zero", "reject", func(w *CfgWorld, m *configpb.LogMultiConfig, i int) {
+		c := m.LogConfigs.Config[i]
+		c.NotAfterStart, c.NotAfterLimit = timestamppb.New(time.Date(2001, 1, 1, 0, 0, 0, 0, time.UTC)), &timestamppb.Timestamp{}
+	}},
+	{"window.start-zero-only", "harmless", func(w *CfgWorld, m *configpb.LogMultiConfig, i int) {
+		c := m.LogConfigs.Config[i]
+		c.NotAfterStart, c.NotAfterLimit = &timestamppb.Timestamp{}, nil
+	}},
+	{"window.limit-zero-only", "harmless", func(w *CfgWorld, m *configpb.LogMultiConfig, i int) {
+		c := m.LogConfigs.Config[i]
+		c.NotAfterStart, c.NotAfterLimit = nil, &timestamppb.Timestamp{}
+	}},
+	{"window.both-zero", "unspecified", func(w *CfgWorld, m *configpb.LogMultiConfig, i int) {
+		c := m.LogConfigs.Config[i]
+		c.NotAfterStart, c.NotAfterLimit = &timestamppb.Timestamp{}, &timestamppb.Timestamp{}
+	}},
 	{"mmd.negative", "reject", func(w *CfgWorld, m *configpb.LogMultiConfig, i int) {
 		c := m.LogConfigs.Config[i]
 		c.MaxMergeDelaySec, c.ExpectedMergeDelaySec = -1, -5
